@@ -69,6 +69,19 @@ def recovery_cases(seed, thorough=False):
             on_model = numpy.allclose(numpy.asarray(pi.loading(), dtype=float), pred, rtol=1e-9)
             keeps = pi.material == iso.material and str(pi.adsorbate) == str(iso.adsorbate) and pi.units == iso.units
             yield {'name': f"from_modelisotherm_on_model_keeps_metadata|{name}|case{r}", 'ok': bool(on_model and keeps), 'detail': f"on model {on_model}, metadata {keeps}"}
+            # generated points, re-fitted, generated again: the second generation lies on the re-fitted model and keeps the metadata
+            if r == 0:
+                try:
+                    mi2 = pgm.model_iso(pi, model=name)
+                    pi2 = pygaps.PointIsotherm.from_modelisotherm(mi2, pressure_points=p)
+                    ok2 = numpy.allclose(numpy.asarray(pi2.loading(), dtype=float), numpy.asarray(mi2.loading_at(p), dtype=float), rtol=1e-9) and pi2.units == iso.units \
+                        and pi2.material == iso.material and pi2.properties.get('model_from') == name
+                    d2 = '' if ok2 else f"metadata {pi2.properties}, units {pi2.units}"
+                except CalculationError:
+                    ok2, d2 = True, 'optimiser reported failure (no claim)'
+                except Exception as exc:
+                    ok2, d2 = False, f"{type(exc).__name__}: {exc}"[:160]
+                yield {'name': f"generated_refitted_generated_again|{name}", 'ok': bool(ok2), 'detail': d2}
             # unit covariance: loading in mol, pressure in relative%
             if r == 0:
                 iso2 = _iso(p, l)
